@@ -313,7 +313,7 @@ def is_loose(e):
     return False
 
 
-def add_violation(st, prop, cfg, mode, reqline, name, observed, expected, why):
+def add_violation(st, prop, cfg, mode, reqline, name, observed, expected, why, extra=None):
     st['violations'] += 1
     key = (name, cfg.name, mode)
     if key in st['viol_keys'] or len(st['viol_list']) >= MAX_VIOL_PER_TASK:
@@ -321,6 +321,8 @@ def add_violation(st, prop, cfg, mode, reqline, name, observed, expected, why):
     st['viol_keys'].add(key)
     st['viol_list'].append({'property': prop.PROP, 'cfg': cfg.name, 'mode': mode, 'request': reqline, 'op': name,
                             'observed': observed, 'expected': expected, 'why': why})
+    if extra:
+        st['viol_list'][-1]['extra'] = extra
 
 
 def new_stats():
@@ -614,6 +616,17 @@ def replay(prop, path):
     cfg = core.Cfg(toks[0])
     if hasattr(prop, 'replay'):
         return prop.replay(sys.modules[__name__], v)
+    if v.get('op') == 'exhaustive16':
+        paths, _ = build(['exh'], 'rel')
+        hdr, resp = run_driver(paths['exh'], v['request'] + '\n', 3600)
+        o = core.parse_outcome(resp[0].split('=', 1)[1])
+        print('request : ' + v['request'])
+        print('response: %d evaluations, %d mismatches, first: %s' % (o[0], o[1], o[2].decode('utf8', 'replace')))
+        if o[1]:
+            print('VIOLATION property=%s replay=%s' % (pid, path))
+            return 1
+        print('[%s] replayed sweep has no mismatch now' % pid)
+        return 0
     full = full or (toks[0] not in core.cfg_names(False) and toks[0] not in getattr(prop, 'CAST_TYPES', []))
     try:
         if mode in ('miri', 'miri-be', 'asan', 'nightly'):
